@@ -40,6 +40,14 @@ def declared_length(name, buf):
             if buf[0] & 0x80:
                 return 2 + (((buf[0] & 0x7f) << 8) | buf[1])
             return 3 + (((buf[0] & 0x3f) << 8) | buf[1])
+        if short.startswith('LDAP'):
+            # BER: tag octet, then a short-form length (< 0x80) or 0x80 | k followed by k length octets
+            if buf[1] < 0x80:
+                return 2 + buf[1]
+            k = buf[1] & 0x7f
+            if k == 0 or len(buf) < 2 + k:
+                return None
+            return 2 + k + int.from_bytes(buf[2:2 + k], 'big')
         if short == 'SslRequest':
             return 8
         if short == 'Sync':
@@ -115,7 +123,7 @@ def check_buffer(cls, name, buf, rng, unit):
 
 def reframed(name, v, rng):
     """Other wire forms of the same frame that the repository's vectors do not contain: SSL 2.0 records with the 3-byte
-    header and padding, SSH binary packets with more padding."""
+    header and padding, SSH binary packets with more padding, LDAP messages with long-form BER lengths."""
     short = name.rsplit('.', 1)[1]
     out = []
     if short == 'SslRecord' and len(v) > 2 and v[0] & 0x80:
@@ -123,6 +131,11 @@ def reframed(name, v, rng):
             ln = (((v[0] & 0x7f) << 8) | v[1]) + p
             if ln < 0x4000:
                 out.append(bytes([(ln >> 8) & 0x3f, ln & 0xff, p]) + v[2:] + bytes(rng.getrandbits(8) for _ in range(p)))
+    if short.startswith('LDAP') and len(v) > 2 and v[0] == 0x30 and v[1] < 0x80 and len(v) == 2 + v[1]:
+        # the same message with its outer length in the long forms of BER (0x81 xx ... 0x84 00 00 00 xx, as Active Directory
+        # writes them): valid BER, not DER
+        for k in (1, 2, 4):
+            out.append(bytes([0x30, 0x80 | k]) + v[1].to_bytes(k, 'big') + v[2:])
     if short.startswith('SshRecord') and len(v) > 5:
         for k in (1, 8, rng.randint(2, 40)):
             pl = int.from_bytes(v[0:4], 'big')
